@@ -31,3 +31,8 @@ def check(ctx):
     ctx.run(E.rule_callbacks_only_via_engine, "C04.D2", r, [rr.runcb, rr.stalecb])
     ctx.run(E.rule_first_error, "C04.D1", r)
     ctx.run(R.rule_no_value_on_failure, "C04.D1", rr)
+    # "once" at the level of executions of the user's function: a node's function is attempted at most retry=n times, by a retry
+    # wrapper applied per executed node (premises C10.F6 / F7 re-evaluated here)
+    ctx.rule("C04.D6", "per executed node the function is invoked through a retry wrapper applied for that node, and the retry loop (evaluated for n = 1..4, every failing prefix) makes at most n attempts and stops at the first success")
+    ctx.run(R.rule_retry_loop, "C04.D6", rr)
+    ctx.run(R.rule_retry_coverage, "C04.D6", rr)
